@@ -175,8 +175,9 @@ Inductive cmd :=
 | CSection (id : Z) (foreign : bool)  (* foreign: a Section object of another CodeHolder carrying that id *)
 | CNewSection (align namelen : Z)
 | CEmbedLabelDelta (id base size : Z)
-| CBindAtomic (id : Z) (patchfail : Z).  (* bind on a tree where bind_label checks the pending displacements BEFORE binding
+| CBindAtomic (id : Z) (patchfail : Z)  (* bind on a tree where bind_label checks the pending displacements BEFORE binding
                                            (fixes/C14-bind-atomic.patch): a displacement that does not fit refuses the bind *)
+| CEmbedConstPool (id size align : Z).   (* embed_const_pool(label, pool): align to the pool's alignment, bind the label, the pool's bytes *)
 
 (* ---------------------------------------------------------------- the emit transaction *)
 (* success path of `_emit`: side effects, then reset_state(), then writer.done() *)
@@ -255,6 +256,20 @@ Definition bind_assembler_atomic (h : handler) (s : state) (id patchfail : Z) : 
                                    (st_fixups s - count_resolvable (st_cur s) p) (st_relocs s) (st_addrs s) (st_nodes s) (st_one s)), ok_out)
   end.
 
+(* BaseAssembler::embed_const_pool: invalid label, already bound label (refused before anything else, fd1aeb4), then the label is
+   bound at the ALIGNED offset (a pending displacement that does not fit there refuses the call before any padding:
+   fixes/C14-const-pool-bind-before-pad.patch), padding, data *)
+Definition pool_pad (s : state) (align : Z) : Z := if align <=? 1 then 0 else (- cur_size s) mod align.
+Definition embed_const_pool_assembler (h : handler) (s : state) (id size align : Z) : state * outcome :=
+  match nthZ (st_labels s) id with
+  | None => (s, report h kInvalidLabel)
+  | Some (LBound _ _) => (s, report h kLabelAlreadyBound)
+  | Some (LUnbound p) =>
+      let s1 := add_bytes s (pool_pad s align) in        (* the state in which the label is bound: offset = aligned offset *)
+      if 0 <? unpatchable_count s1 p then (clear_comment s, report h kInvalidDisplacement)
+      else (add_bytes (fst (bind_assembler_atomic h s1 id 0)) size, ok_out)
+  end.
+
 (* x86::Assembler::align / a64::Assembler::align (argument checks are the same; a64 code alignment needs offset%4=0) *)
 Definition align_assembler (a : arch) (h : handler) (s : state) (mode n : Z) : state * outcome :=
   if kAlignModeMax <? mode then (s, report h kInvalidArgument)
@@ -330,6 +345,14 @@ Definition bind_builder (h : handler) (s : state) (id : Z) : state * outcome :=
   | Some _ => (s, report h kLabelAlreadyBound)
   end.
 
+(* BaseBuilder::embed_const_pool (atomic since ea194a2 / fd1aeb4): AlignNode, the LabelNode, EmbedDataNode *)
+Definition embed_const_pool_builder (h : handler) (s : state) (id : Z) : state * outcome :=
+  match nthZ (st_labels s) id with
+  | None => (s, report h kInvalidLabel)
+  | Some (LUnbound []) => (add_node (add_node (add_node (set_label s id (LUnbound node_active_mark)))), ok_out)
+  | Some _ => (s, report h kLabelAlreadyBound)
+  end.
+
 Definition embed_label_builder (h : handler) (s : state) (size : Z) : state * outcome :=
   if (size =? 0) || is_pow2_up_to size 8 then (add_node s, ok_out) else (s, report h kInvalidOperandSize).
 
@@ -356,6 +379,7 @@ Definition step (fl : flavour) (a : arch) (h : handler) (s : state) (c : cmd) : 
   | CEmbedLabelDelta id ba sz =>
       match fl with FAssembler => embed_label_delta_assembler a h s id ba sz | _ => embed_label_builder h s sz end
   | CBindAtomic id pf => match fl with FAssembler => bind_assembler_atomic h s id pf | _ => bind_builder h s id end
+  | CEmbedConstPool id sz al => match fl with FAssembler => embed_const_pool_assembler h s id sz al | _ => embed_const_pool_builder h s id end
   end.
 
 (* a failed call: a non-zero return value or an exception *)
@@ -380,6 +404,7 @@ Definition residual (fl : flavour) (c : cmd) (o : outcome) : list cmd :=
                  | _ => []
                  end
   | CBindAtomic _ _ => match fl with FAssembler => [CResetComment] | _ => [] end
+  | CEmbedConstPool _ _ _ => match fl with FAssembler => if o_ret o =? kInvalidDisplacement then [CResetComment] else [] | _ => [] end
   | _ => []
   end.
 
